@@ -8,6 +8,9 @@ CONSTANTS
   MaxSize = 2
   MaxDims = 2
   Trim = TRUE
+  TrOnly = FALSE
+  AxisBy = "dims"
+  QueryCast = "none"
 INVARIANT ImplCountWhenWhole
 INVARIANT ImplCountFloorCeil
 INVARIANT ImplInside
